@@ -8,6 +8,10 @@ for f in sorted(glob.glob(os.path.join(ROOT, "seeded", "*", "meta.json"))):
     out = m.get("check_output", [])
     obl = sorted({l.split("failed obligation: ")[1].split(":")[0] for l in out if "failed obligation: " in l})
     ded = sorted({o.split("@")[0] for o in obl if "@cfg" in o or "@cpython" in o or "assigns-nothing" in o})
+    dj = os.path.join(os.path.dirname(f), "deductive.json")
+    if os.path.exists(dj):  # written by tools/deductive_on_mutants.py: the proof module of the property run on the changed tree
+        dd = json.load(open(dj))
+        ded = sorted(set(dd.get("refuted", []))) if dd.get("proof_module") else []
     bnd = sorted({o for o in obl if "@" not in o and "assigns-nothing" not in o})
     notes = open(os.path.join(os.path.dirname(f), "notes.md")).read() if os.path.exists(os.path.join(os.path.dirname(f), "notes.md")) else ""
     mm = re.search(r"`(abtem/[^`]+)`[^`]*`([A-Za-z_.]+)`", notes) or re.search(r"(abtem/[\w/]+\.py)[^\w]+`?([A-Za-z_.]+)", notes)
